@@ -302,10 +302,16 @@ func suiteReuse(rn *runner, r *rng, tier string) {
 		// run on the implementation with reuse of whatever the previous successful call returned
 		st := newStore()
 		tc.impl = make([]string, len(tc.ops))
+		defaults := make([]bool, len(tc.ops))
+		dr := cr.fork()
+		for k := range defaults {
+			defaults[k] = dr.chance(1, 2)
+		}
 		var prev *simdjson.ParsedJson
 		for k, op := range tc.ops {
 			if strings.HasPrefix(op, "parse ") {
 				nextParse.reuse = prev
+				nextParse.defaultOpts = defaults[k]
 			}
 			tc.impl[k] = st.execTimed(op, 30*time.Second)
 			if strings.HasPrefix(op, "parse ") && strings.HasPrefix(tc.impl[k], "ok") {
@@ -345,10 +351,20 @@ func suiteAlias(rn *runner, r *rng, tier string) {
 		}
 		h := hx([]byte(text))
 		c := &opsCase{r: cr, tc: &testCase{note: "alias"}, st: newStore(), nd: nd}
-		// copy mode: scribbling over the input changes nothing
+		// copy mode: scribbling over the input changes nothing — also when the object is a reused one that last
+		// parsed without copying, and when copying is requested by default (no option) rather than explicitly
+		useReuse := cr.chance(1, 2)
+		if useReuse {
+			c.emit("parse r0 0 0 " + hx([]byte("{\"reused\":\"no-copy\"}")))
+		}
+		nextParse.defaultOpts = cr.chance(1, 2)
+		if useReuse {
+			nextParse.reuse = c.st.pjs["r0"]
+		}
 		if out := c.emit(fmt.Sprintf("parse p %s 1 %s", ndS, h)); !strings.HasPrefix(out, "ok") {
 			continue
 		}
+
 		c.pj = c.st.pjs["p"]
 		before := c.emit("owalk p")
 		c.emit("iter m0 p")
@@ -388,10 +404,57 @@ func suiteAlias(rn *runner, r *rng, tier string) {
 				c.expectLast(ordRoots(roots))
 			}
 		}
-		c.tc.class = fmt.Sprintf("nd=%v/%s", nd, sizeClass(len(text)))
-		rn.add(c.tc)
+		c.tc.class = fmt.Sprintf("nd=%v/reuse=%v/%s", nd, useReuse, sizeClass(len(text)))
+		rn.addPrepared(c.tc)
 	}
 	rn.rep.Rule = "parse with copying, overwrite the whole input with 0xFF, re-read through every API; parse without copying, compare documents; Clone, edit original and clone alternately; distinct = (nd, size class)"
+}
+
+// streamValues runs ParseNDStream over text and returns the delivered values (not yet read).
+func streamValues(text string) []*simdjson.ParsedJson {
+	res := make(chan simdjson.Stream, 4)
+	simdjson.ParseNDStream(strings.NewReader(text), res, nil)
+	var out []*simdjson.ParsedJson
+	for s := range res {
+		if s.Error == nil && s.Value != nil {
+			out = append(out, s.Value)
+		}
+	}
+	return out
+}
+
+var streamCount = map[string]int{}
+var streamCountMu sync.Mutex
+
+// streamValues0 reports how many values a stream of this text delivers (cached, sequential semantics).
+func streamValues0(text string) []struct{} {
+	streamCountMu.Lock()
+	n, ok := streamCount[text]
+	streamCountMu.Unlock()
+	if !ok {
+		n = len(streamValues(text))
+		streamCountMu.Lock()
+		streamCount[text] = n
+		streamCountMu.Unlock()
+	}
+	return make([]struct{}, n)
+}
+
+// streamOnce: the ordered rendering of everything a stream delivers, read immediately (sequential reference).
+func streamOnce(text string) string {
+	var sb strings.Builder
+	vals := streamValues(text)
+	streamCountMu.Lock()
+	streamCount[text] = len(vals)
+	streamCountMu.Unlock()
+	for _, v := range vals {
+		s, err := owalk(v)
+		if err != nil {
+			s = "walk-error:" + err.Error()
+		}
+		sb.WriteString(s)
+	}
+	return sb.String()
 }
 
 // C20: independent objects from concurrent goroutines; results must equal the sequential ones
@@ -425,6 +488,68 @@ func suiteConc(rn *runner, r *rng, tier string) {
 					"iter e c", "advinto e", "advinto e", "advinto e", "setnull e", "owalk c", "owalk p", "serde s p", "owalk s")
 			}
 			jobs[g] = j
+		}
+		// streams: every goroutine runs ParseNDStream on its own small documents and keeps each result while
+		// the next stream (its own and everybody else's) is parsed
+		streamDocs := make([][]string, nG)
+		for g := range streamDocs {
+			cr := r.fork()
+			for k := 0; k < 6; k++ {
+				cfg := defaultCfg(cr)
+				cfg.maxDepth, cfg.maxMembers = 2, 4
+				t, _ := cr.ndjson(cfg, 2+cr.intn(3), false)
+				streamDocs[g] = append(streamDocs[g], t)
+			}
+		}
+		streamWant := make([][]string, nG)
+		for g := range streamDocs {
+			for _, t := range streamDocs[g] {
+				streamWant[g] = append(streamWant[g], streamOnce(t))
+			}
+		}
+		var swg sync.WaitGroup
+		streamGot := make([][]string, nG)
+		for g := range streamDocs {
+			swg.Add(1)
+			go func(g int) {
+				defer swg.Done()
+				var held []*simdjson.ParsedJson
+				for _, t := range streamDocs[g] {
+					held = append(held, streamValues(t)...)
+				}
+				// read everything only now, after all streams of this goroutine have been parsed
+				var outs []string
+				idx := 0
+				for _, t := range streamDocs[g] {
+					n := len(streamValues0(t))
+					var sb strings.Builder
+					for k := 0; k < n && idx < len(held); k++ {
+						s, err := owalk(held[idx])
+						if err != nil {
+							s = "walk-error:" + err.Error()
+						}
+						sb.WriteString(s)
+						idx++
+					}
+					outs = append(outs, sb.String())
+				}
+				streamGot[g] = outs
+			}(g)
+		}
+		swg.Wait()
+		for g := range streamDocs {
+			rn.rep.Evaluations++
+			for k := range streamWant[g] {
+				if k >= len(streamGot[g]) || streamGot[g][k] != streamWant[g][k] {
+					got := "<missing>"
+					if k < len(streamGot[g]) {
+						got = streamGot[g][k]
+					}
+					rn.disagree(disagreement{Kind: "spec", Ops: []string{"stream " + hx([]byte(streamDocs[g][k]))}, At: 0, Impl: clip([]string{got}, 1)[0],
+						Other: clip([]string{streamWant[g][k]}, 1)[0], Note: fmt.Sprintf("ParseNDStream result held by goroutine %d changed or differs from the sequential result (N=%d)", g, nG)})
+					break
+				}
+			}
 		}
 		// sequential reference
 		for _, j := range jobs {
